@@ -80,3 +80,30 @@ def fct_call_names(v):
     if len(ts) != 1:
         raise RuntimeError("cannot locate the call names of %r" % (v,))
     return ts[0]
+
+
+def kholaw_rounds(seed):
+    """number of HMAC-SHA512 links the Ledger (Khovratovich-Law) master-key search takes for `seed`, from the scheme's definition with
+    hmac/hashlib only: the candidate I = HMAC-SHA512("ed25519 seed", data) is rejected, and becomes the next data, while bit 5 of I[31] is set"""
+    import hmac, hashlib
+    data, r = seed, 1
+    while True:
+        data = hmac.new(b"ed25519 seed", data, hashlib.sha512).digest()
+        if not data[31] & 0x20:
+            return r
+        r += 1
+
+
+def kholaw_long_round_seeds(rng, thresholds, tries, lengths=(16, 32, 64)):
+    """seeds whose Ledger master-key search needs at least t links, one per threshold t (where found within `tries` random seeds)"""
+    out, left = [], sorted(thresholds)
+    for j in range(tries):
+        if not left:
+            break
+        seed = rng.getrandbits(8 * lengths[j % len(lengths)]).to_bytes(lengths[j % len(lengths)], "big")
+        r = kholaw_rounds(seed)
+        hit = [t for t in left if r >= t]
+        if hit:
+            out.append((max(hit), seed))
+            left.remove(max(hit))
+    return out
